@@ -17,6 +17,7 @@ import argparse, fcntl, hashlib, json, os, re, shutil, subprocess, sys, time
 VERIF = os.path.dirname(os.path.dirname(os.path.abspath(__file__)))
 REPO = os.environ.get("SOLSTAT_REPO", "/repo")
 BUILD = os.path.join(VERIF, "build")
+sys.path.insert(0, os.path.join(VERIF, "bin"))
 LEAN = os.path.join(VERIF, "lean")
 HARNESS = os.path.join(VERIF, "harness")
 TARGET = os.path.join(BUILD, "harness-target")
@@ -186,7 +187,8 @@ def source_grep(modules):
         text = open(f).read()
         text = re.sub(r"/-.*?-/", "", text, flags=re.S)
         for i, l in enumerate(text.split("\n")):
-            l2 = l.split("--")[0]
+            l2 = re.sub(r'"(?:[^"\\]|\\.)*"', '""', l)   # words inside string literals are data, not constructs
+            l2 = l2.split("--")[0]
             if pat.search(l2):
                 bad.append(f"{os.path.relpath(f, LEAN)}:{i+1}: {l.strip()[:120]}")
     return bad
@@ -331,6 +333,15 @@ def main():
                 discharged += 1
             else:
                 broken.append({"what": "theorem", "name": t, "why": info})
+        # thorough: the compiled modules are re-checked by the independent checker
+        if tier == "thorough" and shutil.which("leanchecker"):
+            for mod in P["theorems"]:
+                if built.get(mod):
+                    rc = run(["lake", "env", "leanchecker", mod], cwd=LEAN)
+                    if rc.returncode != 0:
+                        broken.append({"what": "audit", "name": f"leanchecker rejects {mod}", "log": ((rc.stdout or "") + (rc.stderr or ""))[-1500:]})
+                    else:
+                        notes.append(f"leanchecker: {mod} ok")
         bad = source_grep(list(P["theorems"].keys()))
         if bad:
             broken.append({"what": "audit", "name": "forbidden construct in Lean sources", "hits": bad[:10]})
@@ -439,8 +450,13 @@ def main():
         if FALLBACKS and tier == "quick":
             notes.append("translator residue: " + "; ".join(f"{f}: {sorted(r)}" for f, r in FALLBACKS.items()) +
                          " -- the reviewed baseline tables are used and the correspondence is widened (thorough generators)")
+            deps = {"WalkEdges.lean": {"walk", "det", "relayout", "compose"}, "Targets.lean": {"walk", "det", "relayout", "compose"},
+                    "Schema.lean": {"walk", "det", "relayout", "compose"}, "TypeSize.lean": {"slots", "det", "relayout", "compose"},
+                    "Patterns.lean": {"det", "dir", "render"}, "Sections.lean": {"render"}}
+            affected = set().union(*[deps.get(f, set()) for f in FALLBACKS]) if FALLBACKS else set()
             for fam, fargs in P["obs"]:
-                run_family(fam, fargs, a.seed + 104729, "thorough", "_fallback")
+                if fam in affected:
+                    run_family(fam, fargs, a.seed + 104729, "thorough", "_fallback")
         # widen the search when something no longer checks but no failing input has been seen yet
         if (broken or disagreements) and not viols and tier == "quick" and P.get("widen", True):
             notes.append("obligation/correspondence broken without a failing input in the quick run: widened search")
@@ -505,9 +521,18 @@ def main():
         if exit_code == 0:
             h = hashlib.sha1(("\n".join(ctx)).encode()).hexdigest()[:12]
             path = os.path.join(VERIF, "replays", pid, f"{h}.json")
-            json.dump({"property": pid, "kind": kind, "group": group, "oracle": "VIOL", "detail": detail[:4000],
-                       "input": describe_input(ctx), "request_lines": ctx, "seed": a.seed, "tier": tier,
-                       "how_to_replay": f"python3 bin/check.py {pid} --replay {os.path.relpath(path, VERIF)}"}, open(path, "w"), indent=1)
+            rp = {"property": pid, "kind": kind, "group": group, "oracle": "VIOL", "detail": detail[:4000],
+                  "input": describe_input(ctx), "request_lines": ctx, "seed": a.seed, "tier": tier,
+                  "how_to_replay": f"python3 bin/check.py {pid} --replay {os.path.relpath(path, VERIF)}"}
+            # a smaller file on which the same violation still shows (time-boxed; the full input stays in the replay)
+            try:
+                import minimize
+                mres = minimize.minimize(ctx, kind, group, "VIOL", budget=20.0)
+                if mres:
+                    rp["minimized"] = mres
+            except Exception as e:
+                rp["minimized_error"] = str(e)[:200]
+            json.dump(rp, open(path, "w"), indent=1)
             out_lines.append(f"VIOLATION property={pid} replay={path}")
             exit_code = 1
     unknown_viol = exit_code == 1
